@@ -1628,7 +1628,10 @@ theorem y02_classBody_outs (env : Env) (fuel : Nat) (c : Class) (indent : String
   dsimp only
   refine y02_Outs.bind (Q := fun r => y02_CS r.1 ∧ y02_CS r.2.1) ?_ fun ⟨superInfo, superMethodsText, nNames⟩ hsi => ?_
   · refine y02_Outs.ite ?_ (y02_Outs.pure ⟨y02_CS_empty, y02_CS_empty⟩)
-    refine y02_Outs.bind (y02_superclassesG_outs env (fun sc => ihI sc _ _ hii) c.superclasses hsupers)
+    have hsupers' : c.renderedSupers.all superBal = true := by
+      rw [List.all_eq_true] at hsupers ⊢
+      exact fun x hx => hsupers x (List.mem_filter.mp hx).1
+    refine y02_Outs.bind (y02_superclassesG_outs env (fun sc => ihI sc _ _ hii) c.renderedSupers hsupers')
       fun ⟨names, text⟩ hr => y02_Outs.pure ⟨?_, hr.2⟩
     exact y02_CS_ite y02_CS_empty (y02_CS_append (y02_CS_of_bal (by decide)) (y02_CS_commaSep _ hr.1))
   dsimp only
